@@ -24,6 +24,8 @@ Checks(e) ==
         (Parsed(e) /\ ~Safe) => Enc(o.first.tree) = e.frame),
      Ck("C04", "the parsed message reports the size of the frame", Parsed(e) => o.first.len = Len(e.frame)),
      Ck("C05", "re-encoding the parsed message reproduces the frame", (Parsed(e) /\ ~Has(e, "noreenc")) => o.first.reenc = e.frame),
+     Ck("C04", "messages parsed afterwards do not change this one (it still exposes what was on the wire)", (Has(o, "final") /\ Has(o, "first")) => o.final = o.first),
+     Ck("C12", "messages parsed afterwards do not change this one (parsed messages share no memory with each other)", (Has(o, "final") /\ Has(o, "first")) => o.final = o.first),
      Ck("C12", "overwriting the input buffer changes neither the parsed message nor its re-encoding",
         (Has(o, "after") /\ Has(o, "first") /\ Has(o, "err") /\ ~o.err) => \A i \in DOMAIN o.after : o.after[i] = o.first) >>
 Failed(e) == LET cs == Checks(e) IN {i \in DOMAIN cs : ~cs[i][3]}
